@@ -68,6 +68,25 @@ Theorem C11_status_of_trailers : forall s fs,
 Proof. exact status_of_trailers. Qed.
 Print Assumptions C11_status_of_trailers.
 
+(* PADDED DATA frames: the whole frame (pad-length byte + data + padding) counts against the
+   stream's receive window - one that does not fit terminates the stream with Internal and
+   RST_STREAM(FLOW_CONTROL_ERROR) - and on a gRPC stream the padding part is given back at once. *)
+Theorem C11_padded_data_flow_control : forall c sid dlen plen ended s,
+  find_active sid (k_streams c) = Some s -> 0 <= dlen -> 0 <= plen ->
+  stream_limit < x_pd s + (1 + dlen + plen) + x_pu s ->
+  exec_op c (OPadData sid dlen plen ended) = close_one c sid C_INTERNAL false (Some E_FLOW).
+Proof. exact padded_data_flow_control. Qed.
+Print Assumptions C11_padded_data_flow_control.
+Theorem C11_padded_data_accepted : forall c sid dlen plen s,
+  find_active sid (k_streams c) = Some s -> x_ng s = -1 -> 0 <= dlen -> 0 <= plen -> 0 <= x_pd s ->
+  x_pd s + (1 + dlen + plen) + x_pu s <= stream_limit ->
+  exec_op c (OPadData sid dlen plen false) =
+  (with_streams c (update sid (set_fc (x_nb s) (x_pd s + dlen)
+                                 (if stream_limit / 4 <=? x_pu s + (1 + plen) then 0 else x_pu s + (1 + plen)))
+                          (k_streams c)), []).
+Proof. exact padded_data_accepted. Qed.
+Print Assumptions C11_padded_data_accepted.
+
 (* The predicate evaluated on implementation traces holds on every trace of the model. *)
 Theorem C11_holds_on_every_model_trace : forall cfg ops, wf cfg ops = true ->
   exists obs, run cfg ops = Some obs /\ holds_b cfg ops obs = true.
